@@ -519,6 +519,14 @@ func witnesses() []witness {
 		{"mvt", unhex("1a0c120a18032206ffffffff0f00"), "polygon first command ClosePath with count 2^29-1"},
 		{"mvt", unhex("1a0f120d18022209 0902 02 faffffff0f 00"), "line string second command LineTo with count 2^29-1"},
 		{"mvt", unhex("1a0c120a18012206f9ffffff0f00"), "point MoveTo with count 2^29-1"},
+		// seeded change C05l: gzip in gzip; the unchanged tree inflates ONE layer and fails on the inner magic
+		{"mvt", buildGzip("gz2-zeros", 1<<20), "gzip in gzip over 1 MiB of zeros"},
+		{"mvt", buildGzip("gz3-zeros", 1<<24), "three gzip layers over 16 MiB of zeros"},
+		{"mvt", buildGzip("gz4-zeros", 1<<24), "four gzip layers over 16 MiB of zeros"},
+		{"mvt", buildGzip("gz3-tile", 1<<22), "three gzip layers over 4 MiB of repeated valid tile"},
+		{"mvt", buildGzip("gz2-badtile", 1<<20), "two gzip layers over 1 MiB of repeated invalid tile"},
+		{"mvt", buildGzip("gz-members", 64), "64 concatenated gzip members"},
+		{"mvt", buildGzip("gz-name-len", 2000), "gzip header with a 2000-byte file name"},
 		// seeded change C05i: a polygon whose second ring is one moveTo vertex + lineTo x0, not followed by closePath
 		{"mvt", mvtTileOf(mvtFeature(3, []uint32{9, 0, 0, 18, 20, 0, 0, 20, 15, 9, 2, 2, 2, 2})), "one-point second ring, then lineTo x0"},
 		{"mvt", mvtTileOf(mvtFeature(3, []uint32{9, 0, 0, 18, 20, 0, 0, 20, 15, 9, 2, 2, 2, 1})), "one-point second ring, then moveTo x0"},
